@@ -473,6 +473,21 @@ def lifecycle():
     if not m:
         errors.append("state.rs: back-off power cap not found")
     emit_nat("DEFAULT_RECONNECT_IVL_MS", const("core/src/socket/options.rs", "DEFAULT_RECONNECT_IVL_MS"))
+    # event handling: which events make a SocketCore shut itself down
+    ev = "core/src/socket/core/event_processor.rs"
+    b = fn_body(ev, "process_system_event")
+    emit_nat("evContextTermShutsDown", 1 if re.search(r"SystemEvent::ContextTerminating\s*=>\s*\{[^}]*initiate_core_shutdown", b, re.S) else 0)
+    emit_nat("evSocketClosingOnlyOwn", 1 if re.search(r"SystemEvent::SocketClosing\s*\{\s*socket_id\s*\}\s*=>\s*\{\s*if\s+socket_id\s*==\s*core_handle\s*\{[^}]*initiate_core_shutdown", b, re.S) else 0)
+    n_shutdown = len(re.findall(r"initiate_core_shutdown", b))
+    emit_nat("evShutdownCallSites", n_shutdown)
+    n_q = len(re.findall(r"\.await\?;", b))
+    emit_nat("evFallibleCalls", n_q)
+    pm = "core/src/socket/core/pipe_manager.rs"
+    bb = fn_body(pm, "process_inproc_binding_request_event")
+    emit_nat("inprocRefusalKeepsBinder", 1 if re.search(
+        r"validate_socket_compatibility\([^)]*\)\s*\{.{0,400}?reply_tx\.send\(Err\(e\)\);\s*return Ok\(\(\)\);", bb, re.S) else 0)
+    cl = "core/src/socket/core/command_loop.rs"
+    emit_nat("busLagShutsSocketDown", 1 if re.search(r"RecvError::Lagged\(n\)\)\s*=>\s*\{.*?initiate_core_shutdown", strip_comments(src(cl)), re.S) else 0)
 
 
 GENERATORS = [("Consts", [wire], []), ("Proto", [proto], ["RzmqModel.Model.Names"]), ("Life", [lifecycle], [])]
